@@ -331,8 +331,10 @@ func (c *Controller) resolveMatch(ls *linkState, hashBytes []byte, ms link.Mount
 		}
 	})
 
+	// All matching directives share one value, so that only one of them can
+	// accept (own) the stream.
+	sms := link_solicit.NewSolicitMountedStream(ms)
 	for _, ss := range matches {
-		sms := link_solicit.NewSolicitMountedStream(ms)
 		if _, ok := ss.handler.AddValue(sms); ok {
 			ls.le.WithField("hash", hashHex).Debug("emitted SolicitMountedStream value")
 		}
